@@ -135,6 +135,10 @@ func (pConn *PFCPConn) handleAssociationSetupRequest(msg message.Message) (messa
 		return nil, errUnmarshal(errMsgUnexpectedType)
 	}
 
+	if asreq.NodeID == nil || asreq.RecoveryTimeStamp == nil {
+		return nil, errUnmarshal(errMandatoryIEMissing)
+	}
+
 	nodeID, err := asreq.NodeID.NodeID()
 	if err != nil {
 		return nil, errUnmarshal(err)
@@ -180,6 +184,10 @@ func (pConn *PFCPConn) handleAssociationSetupResponse(msg message.Message) error
 	asres, ok := msg.(*message.AssociationSetupResponse)
 	if !ok {
 		return errUnmarshal(errMsgUnexpectedType)
+	}
+
+	if asres.Cause == nil || asres.NodeID == nil || asres.RecoveryTimeStamp == nil {
+		return errUnmarshal(errMandatoryIEMissing)
 	}
 
 	cause, err := asres.Cause.Cause()
